@@ -20,7 +20,8 @@ OPS = ['split', 'split_no_overlap', 'trim', 'trim_easy', 'sample']
 RULE = ('case = one generated point set (1-4 clusters, optional sparse halo, d=2..5, n_points_min in '
         '{None, d+1, 15, 30}, member class Ellipsoid or UnitCubeEllipsoidMixture); ALL operation sequences '
         'over {split, split(allow_overlap=False), trim(), trim(threshold=1), sample(50)} up to length 3 '
-        '(quick) / 5 (thorough) are executed as a prefix tree on deep copies of the real Union and checked '
+        '(quick) / 5 (thorough) - for every second point set appended to the fixed prefix split, split, sample - are '
+        'executed as a prefix tree on deep copies of the real Union and checked '
         'against the reference model after every operation (split(allow_overlap=False) is skipped for '
         'mixture members, where the documented ValueError applies). Non-trivial = a sequence (tree node) '
         'containing >= 1 successful split; all sequences of a point set are distinct.')
@@ -223,7 +224,7 @@ class Explorer:
         return True, model, outcome
 
     def explore(self, u, model, seq, had_split):
-        if len(seq) >= self.spec['depth']:
+        if len(seq) - self.base_depth >= self.spec['depth']:
             return
         for op in OPS:
             if op == 'split_no_overlap' and self.meta['bound_class'] != 'Ellipsoid':
@@ -236,7 +237,7 @@ class Explorer:
             if ok:
                 if hs:
                     self.nontrivial += 1
-                    if self.example is None and len(s2) == self.spec['depth']:
+                    if self.example is None and len(s2) - self.base_depth == self.spec['depth']:
                         self.example = s2
                 self.explore(u2, m2, s2, hs)
 
@@ -249,7 +250,20 @@ class Explorer:
         self.all_sorted = _sorted_rows(self.points)
         if not self.check_records(u, [], u.n_points_min):
             return
-        self.explore(u, {'trimmed': []}, [], False)
+        # half of the point sets start the enumeration from a union that was already split twice and sampled
+        # (so that e.g. "split, split, sample, trim, sample" is reached within the quick depth)
+        model, seq, had_split = {'trimmed': []}, [], False
+        self.base_depth = 0
+        if self.spec['i'] % 2 == 1:
+            for op in ('split', 'split', 'sample'):
+                seq = seq + [op]
+                ok, model, outcome = self.apply(u, model, op, seq)
+                self.obs['sequences'] += 1
+                had_split = had_split or (op == 'split' and outcome == 'accepted')
+                if not ok:
+                    return
+            self.base_depth = len(seq)
+        self.explore(u, model, seq, had_split)
 
 
 def run_case(spec):
